@@ -2,6 +2,7 @@ package c07
 
 import (
 	"bytes"
+	"crypto/ecdsa"
 	"fmt"
 	"math/big"
 
@@ -124,9 +125,10 @@ func hostileInputs(c *mon.Case, kp *keyPair, fam string) []hinput {
 				add(fmt.Sprintf("%v C1 cut to %d bytes", f, cut), c1[:cut])
 			}
 			// padded so that the whole thing passes a total-length check
+			total := 1 + 2*n + 55 // 120 on the 256-bit curves
 			for _, cut := range []int{1, n, n + 1, 2 * n} {
 				if cut < len(c1) {
-					add(fmt.Sprintf("%v C1 cut to %d bytes + zeros up to 120", f, cut), cat(c1[:cut], make([]byte, 120-cut)))
+					add(fmt.Sprintf("%v C1 cut to %d bytes + zeros up to %d", f, cut, total), cat(c1[:cut], make([]byte, total-cut)))
 				}
 			}
 		}
@@ -334,32 +336,40 @@ func hostile(x *mon.Ctx) {
 					continue
 				}
 				c.Class("%s/hostile/%s", cvName(cv), fam)
-				keyKind := []string{"random", "d0", "d=1", "random"}[rep%4]
-				kp := newKey(cv, pickKey(c, cv, keyKind))
-				o := newOracle(kp)
-				for _, in := range hostileInputs(c, kp, fam) {
-					c.Event("hostile_inputs", 1)
-					control := len(in.name) > 8 && in.name[:8] == "control:"
-					for dvi := range decVariants {
-						pt, ok := o.decrypt(c, in.name, in.b, dvi)
-						if ok {
-							c.Event("hostile_input_decrypted", 1)
-						}
-						_ = pt
-					}
-					if control {
-						// at least the matched entry point must have taken it (judge enforces it; count it)
-						c.Event("controls", 1)
-					}
-					if isSM2(cv) {
-						converters(c, in)
-					}
-				}
-				c.Event("reference_mults", o.mults)
+				hostileCase(c, cv, fam, rep)
 				c.End()
 			}
 		}
 	}
+	hostileEncryptSide(x)
+	hostileKeyObjects(x)
+}
+
+// hostileCase hands every input of one family to every decryption entry point (and, on the
+// SM2 curve, to the converters).
+func hostileCase(c *mon.Case, cv enc.Curve, fam string, rep int) {
+	keyKind := []string{"random", "d0", "d=1", "random"}[rep%4]
+	kp := newKey(cv, pickKey(c, cv, keyKind))
+	o := newOracle(kp)
+	for _, in := range hostileInputs(c, kp, fam) {
+		c.Event("hostile_inputs", 1)
+		control := len(in.name) > 8 && in.name[:8] == "control:"
+		for dvi := range decVariants {
+			pt, ok := o.decrypt(c, in.name, in.b, dvi)
+			if ok {
+				c.Event("hostile_input_decrypted", 1)
+			}
+			_ = pt
+		}
+		if control {
+			// at least the matched entry point must have taken it (judge enforces it; count it)
+			c.Event("controls", 1)
+		}
+		if isSM2(cv) {
+			converters(c, in)
+		}
+	}
+	c.Event("reference_mults", o.mults)
 }
 
 // converters runs the three layout converters on an arbitrary byte string under the
@@ -400,5 +410,185 @@ func converters(c *mon.Case, in hinput) {
 				c.Event("converter_took_hostile", 1)
 			}
 		}
+	}
+}
+
+// hostileEncryptSide: what is not a key pair or not an option set of the API handed to the
+// encryption side. The property quantifies over key pairs and supported layouts, so nothing
+// but the absence of a panic is demanded; what the library answers is recorded. (Public keys
+// off the curve are given to the SM2-curve path only: crypto/elliptic, which carries the
+// legacy path, documents a panic for them.)
+func hostileEncryptSide(x *mon.Ctx) {
+	for _, cv := range []enc.Curve{enc.SM2, enc.P256} {
+		c := x.Begin("hostile curve=%s encryption with invalid public keys and option values outside the exported constants (panic monitor only)", cvName(cv))
+		if c == nil {
+			continue
+		}
+		c.Trivial()
+		kp := newKey(cv, pickKey(c, cv, "random"))
+		p := cv.Prime()
+		type pk struct {
+			name string
+			x, y *big.Int
+		}
+		pubs := []pk{{"the point (0,0)", big.NewInt(0), big.NewInt(0)}}
+		if isSM2(cv) {
+			pubs = append(pubs,
+				pk{"y+1 (off the curve)", kp.px, new(big.Int).Add(kp.py, big.NewInt(1))},
+				pk{"x,y swapped", kp.py, kp.px},
+				pk{"x+p", new(big.Int).Add(kp.px, p), kp.py},
+				pk{"x=p", p, kp.py},
+				pk{"x of 257 bits", new(big.Int).Lsh(big.NewInt(1), 256), kp.py},
+				pk{"negative y", kp.px, new(big.Int).Neg(kp.py)},
+				pk{"(0, y)", big.NewInt(0), kp.py},
+				pk{"(x, 0)", kp.px, big.NewInt(0)})
+		}
+		for _, q := range pubs {
+			for _, vi := range []int{0, 4, 8} {
+				ev := &encVariants[vi]
+				pub := &ecdsa.PublicKey{Curve: libCurve(cv), X: new(big.Int).Set(q.x), Y: new(big.Int).Set(q.y)}
+				m := c.R.Bytes(1 + c.R.Intn(120))
+				var got []byte
+				var err error
+				if callDec(c, kp, fmt.Sprintf("%s to the public key %s", ev.name, q.name), m, func() { got, err = ev.call(script(c, c.R.Bytes(32)), pub, m) }) {
+					if err != nil {
+						c.Event("invalid_public_key_refused", 1)
+					} else {
+						c.Event(fmt.Sprintf("invalid_public_key_gave_%d_bytes/%s", len(got)-len(m), q.name), 1)
+					}
+				}
+			}
+		}
+		// option values beyond the exported constants
+		for _, o := range []struct {
+			name string
+			opts *sm2.EncrypterOpts
+		}{
+			{"splicing order 2", sm2.NewPlainEncrypterOpts(sm2.MarshalUncompressed, sm2.C1C2C3+1)},
+			{"splicing order 255", sm2.NewPlainEncrypterOpts(sm2.MarshalCompressed, sm2.C1C2C3+254)},
+			{"marshal mode 3", sm2.NewPlainEncrypterOpts(sm2.MarshalHybrid+1, sm2.C1C3C2)},
+			{"marshal mode 255, splicing order 2", sm2.NewPlainEncrypterOpts(sm2.MarshalHybrid+253, sm2.C1C2C3+1)},
+		} {
+			m := c.R.Bytes(1 + c.R.Intn(120))
+			k, _, _ := drawK(c, kp, len(m))
+			var got []byte
+			var err error
+			if !callDec(c, kp, "Encrypt with "+o.name, m, func() { got, err = sm2.Encrypt(script(c, kBlock(cv, k)), &kp.priv.PublicKey, m, o.opts) }) {
+				continue
+			}
+			if err != nil {
+				c.Event("invalid_option_refused", 1)
+				continue
+			}
+			c.Event("invalid_option_gave_ciphertext", 1)
+			// whatever it is, the decryption side and the converters must survive it (with the same strange order, too)
+			for _, d := range []*sm2.DecrypterOpts{nil, sm2.NewPlainDecrypterOpts(sm2.C1C2C3 + 1), sm2.NewPlainDecrypterOpts(sm2.C1C3C2), sm2.NewPlainDecrypterOpts(sm2.C1C2C3)} {
+				in := append([]byte{}, got...)
+				var pt []byte
+				var derr error
+				if callDec(c, kp, "PrivateKey.Decrypt of the result of Encrypt with "+o.name, in, func() {
+					if d == nil {
+						pt, derr = kp.priv.Decrypt(decRand, in, nil)
+					} else {
+						pt, derr = kp.priv.Decrypt(decRand, in, d)
+					}
+				}) && derr == nil {
+					if bytes.Equal(pt, m) {
+						c.Event("invalid_option_ciphertext_decrypted", 1)
+					} else if _, ok := newOracle(kp).may(got, pt); !ok {
+						c.Detail("ciphertext", got)
+						c.Fail("accept", "PrivateKey.Decrypt returned a plaintext that the reference decryption does not find in the ciphertext under any layout (ciphertext from Encrypt with %s)", o.name)
+					}
+				}
+			}
+			if isSM2(cv) {
+				converters(c, hinput{"result of Encrypt with " + o.name, got})
+				in := append([]byte{}, got...)
+				callDec(c, kp, "AdjustCiphertextSplicingOrder(2->0)", in, func() { sm2.AdjustCiphertextSplicingOrder(in, sm2.C1C2C3+1, sm2.C1C3C2) })
+				callDec(c, kp, "AdjustCiphertextSplicingOrder(0->2)", in, func() { sm2.AdjustCiphertextSplicingOrder(in, sm2.C1C3C2, sm2.C1C2C3+1) })
+				callDec(c, kp, "PlainCiphertext2ASN1(2)", in, func() { sm2.PlainCiphertext2ASN1(in, sm2.C1C2C3+1) })
+			}
+		}
+		c.End()
+	}
+}
+
+// hostileKeyObjects: key objects whose exported scalar is no private key (0, n and above,
+// wider than the order) handed to the decryption entry points and to the enveloping
+// function. Such an object is not a key pair, so the answer is recorded, not judged;
+// a panic is a violation.
+func hostileKeyObjects(x *mon.Ctx) {
+	for _, cv := range []enc.Curve{enc.SM2, enc.P256} {
+		c := x.Begin("hostile curve=%s decryption and enveloping with key objects whose scalar is 0, >= n or wider than n (panic monitor only)", cvName(cv))
+		if c == nil {
+			continue
+		}
+		c.Trivial()
+		kp := newKey(cv, pickKey(c, cv, "random"))
+		n := cv.N()
+		m := c.R.Bytes(1 + c.R.Intn(100))
+		k, _, _ := drawK(c, kp, len(m))
+		ct, err := enc.Encrypt(cv, k, kp.px, kp.py, m)
+		if err != nil {
+			c.End()
+			continue
+		}
+		two := func(e uint) *big.Int { return new(big.Int).Lsh(big.NewInt(1), e) }
+		for _, d := range []struct {
+			name string
+			v    *big.Int
+		}{
+			{"0", big.NewInt(0)},
+			{"n", new(big.Int).Set(n)},
+			{"n+d", new(big.Int).Add(n, kp.d)},
+			{"2^256-1", new(big.Int).Sub(two(256), big.NewInt(1))},
+			{"2^256", two(256)},
+			{"2^256+d", new(big.Int).Add(two(256), kp.d)},
+			{"2^300+d", new(big.Int).Add(two(300), kp.d)},
+			{"d*2^256", new(big.Int).Lsh(kp.d, 256)},
+		} {
+			bad := &keyPair{cv: cv, d: d.v, px: kp.px, py: kp.py, priv: newKeyFromPoint(cv, d.v, kp.px, kp.py)}
+			for _, s := range serialise(ct, false) {
+				for dvi := range decVariants {
+					in := append([]byte{}, s.b...)
+					var pt []byte
+					var derr error
+					if callDec(c, bad, fmt.Sprintf("key object with D=%s: %s of %s", d.name, decVariants[dvi].name, s.name), in, func() { pt, derr = decVariants[dvi].call(bad.priv, in) }) {
+						switch {
+						case derr != nil:
+							c.Event("invalid_scalar_decrypt_refused", 1)
+						case bytes.Equal(pt, m):
+							c.Event("invalid_scalar_decrypt_gave_the_message/D="+d.name, 1) // D = d mod n
+						default:
+							c.Event("invalid_scalar_decrypt_gave_other_bytes/D="+d.name, 1)
+						}
+					}
+				}
+			}
+			if isSM2(cv) {
+				rcpt := fixedPair()
+				var merr error
+				if callDec(c, bad, "MarshalEnvelopedPrivateKey of a key object with D="+d.name, nil, func() {
+					_, merr = sm2.MarshalEnvelopedPrivateKey(script(c, c.R.Bytes(16), c.R.Bytes(32)), &rcpt.priv.PublicKey, bad.priv)
+				}) {
+					if merr != nil {
+						c.Event("invalid_scalar_envelope_refused", 1)
+					} else {
+						c.Event("invalid_scalar_envelope_made/D="+d.name, 1)
+					}
+				}
+			}
+		}
+		if isSM2(cv) {
+			// enveloping for a recipient whose public key is the point (0,0)
+			var merr error
+			zero := &ecdsa.PublicKey{Curve: libCurve(cv), X: big.NewInt(0), Y: big.NewInt(0)}
+			if callDec(c, kp, "MarshalEnvelopedPrivateKey for the recipient (0,0)", nil, func() {
+				_, merr = sm2.MarshalEnvelopedPrivateKey(script(c, c.R.Bytes(16), c.R.Bytes(32)), zero, kp.priv)
+			}) && merr == nil {
+				c.Event("envelope_for_recipient_00_made", 1)
+			}
+		}
+		c.End()
 	}
 }
